@@ -628,6 +628,26 @@ def builtin_name_cases():
     return cases
 
 
+def null_provenance_cases():
+    """FEEL has ONE null: nulls of different origin (the literal, a division by zero, an addition of a string and a number, a missing context entry, a
+    function called with too few arguments) are the same value wherever values are compared - also inside lists and contexts (seeded change C01_k:
+    lists were compared with the derived equality of the value type, which also compares the diagnostic text a null carries)"""
+    n = lambda z: ('num', z)
+    nulls = [('null',), ('bin', 'Div', n(1), n(0)), ('bin', 'Add', ('str', 'a'), n(1)), ('path', ('ctx', ((101, n(1)),)), 102),
+             ('call', ('fun', (101, 102), ('name', 101)), (n(1),)), ('if', ('bin', 'Gt', n(1), ('null',)), n(1), ('null',))]
+    cases = []
+    for i, a in enumerate(nulls):
+        for b in nulls[i:]:
+            for op in ('Eq', 'Ne'):
+                cases.append(((), ('bin', op, ('list', (a,)), ('list', (b,)))))
+                cases.append(((), ('bin', op, ('list', (n(1), a, n(2))), ('list', (n(1), b, n(2))))))
+            cases.append(((), ('bin', 'Eq', ('list', (('list', (a,)),)), ('list', (('list', (b,)),)))))
+            cases.append(((), ('bin', 'Eq', ('list', (('ctx', ((101, a),)),)), ('list', (('ctx', ((101, b),)),)))))
+            cases.append(((), ('bin', 'Eq', ('ctx', ((101, ('list', (a,))),)), ('ctx', ((101, ('list', (b,))),)))))
+            cases.append(((), ('bin', 'Eq', a, b)))
+    return cases
+
+
 def shadow_cases(gen):
     """implicit names (`item` in filters, `partial` in for) against every way of binding the same name outside"""
     r = gen.rng
